@@ -44,6 +44,7 @@ def run(idx: Index, rep: Report, tier: str):
     check_combinatorial_basis(idx, rep)
     check_hcb_table(idx, rep)
     check_combinatorial_spectrum(idx, rep, tier)
+    check_hcb_chain(idx, rep, tier)
     check_register_size_reaches_encoder(idx, rep)
 
 
@@ -485,3 +486,118 @@ def check_register_size_reaches_encoder(idx: Index, rep: Report):
                        what="the caller's register size reaches the call that generates the encoding, so operators that stop below the highest orbital are encoded on the full register",
                        reason=f"`{norm(c)[:70]}` does not receive n_qubits: the register is sized from the highest orbital the operator happens to touch, so ladder operators and "
                               f"products are encoded on different registers and the encoding is no longer one representation")
+
+
+# ---------------------------------------------------------------------------------------------------
+# the whole hard-core-boson chain, folded: FermionOperator.get_coeffs -> spatial_from_spinorb -> hard_core_boson_operator
+OPSF = "tangelo/toolboxes/operators/operators.py"
+
+
+def hcb_encode(idx: Index, terms: dict):
+    """fold hard_core_boson_operator on a fermionic operator given by its term dictionary (order-aware stand-in carrying the repository's own get_coeffs);
+    returns the boson operator stand-in"""
+    from ..consteval import FuncVal, Raised, Undecidable
+    from ..rules.circuitsem import make_folder
+    from ..rules.ofmodel import OrdFermionOp
+    gc = idx.function(f"{OPSF}::FermionOperator.get_coeffs")
+
+    def folder(rel):
+        fo = make_folder(idx, rel, ctors={"BosonOperator": lambda a, k: _BosOp(*a, **k), "of.count_qubits": lambda a, k: max([i for t in a[0].terms for i, _ in t] + [-1]) + 1,
+                                          "count_qubits": lambda a, k: max([i for t in a[0].terms for i, _ in t] + [-1]) + 1})
+        fo.real_arrays = True
+        return fo
+
+    class _F(OrdFermionOp):
+        def get_coeffs(self, coeff_threshold=1e-8, spatial=False):
+            return folder(OPSF).call_funcval(FuncVal(gc.node, bound_self=self, home=OPSF), [], {"coeff_threshold": coeff_threshold, "spatial": spatial})
+    op = _F()
+    op.terms = dict(terms)
+    f = idx.function(f"{HCB}::hard_core_boson_operator")
+    return folder(HCB).run_function(f.node, {"ferm_op": op})
+
+
+def paired_block(terms: dict, n_mos: int):
+    """exact matrix of the fermionic operator between the seniority-zero determinants (every spatial orbital empty or doubly occupied); row / column index:
+    pair occupation read as a binary number, orbital 0 most significant"""
+    import numpy as np
+    from ..rules import fock
+    N = 2 * n_mos
+    M = np.zeros((2 ** N, 2 ** N), dtype=complex)
+    for t, c in terms.items():
+        M = M + complex(c) * fock.term_matrix(t, N).astype(complex)
+    rows = []
+    for s_ in range(2 ** n_mos):
+        occ = [(s_ >> (n_mos - 1 - p_)) & 1 for p_ in range(n_mos)]
+        rows.append(sum((1 << (N - 1 - 2 * p_)) | (1 << (N - 2 - 2 * p_)) for p_ in range(n_mos) if occ[p_]))
+    return M[np.ix_(rows, rows)]
+
+
+def boson_matrix(bos, n_mos: int):
+    """matrix of a hard-core boson operator stand-in on n_mos two-level modes (b+ = |1><0|), mode 0 most significant"""
+    import numpy as np
+    up, dn, one = np.array([[0, 0], [1, 0]], dtype=complex), np.array([[0, 1], [0, 0]], dtype=complex), np.eye(2, dtype=complex)
+    M = np.zeros((2 ** n_mos, 2 ** n_mos), dtype=complex)
+    for term, c in bos.terms.items():
+        m = np.eye(2 ** n_mos, dtype=complex)
+        for mode, dag in term:
+            f = np.array([[1]], dtype=complex)
+            for q in range(n_mos):
+                f = np.kron(f, (up if dag else dn) if q == mode else one)
+            m = m @ f
+        M = M + complex(c) * m
+    return M
+
+
+def _restricted_hamiltonian(n_mos: int, seed: int) -> dict:
+    """a spin-restricted molecular Hamiltonian the way SecondQuantizedMolecule produces it: every a+_P a+_Q a_R a_S with 1/2 g (not normal ordered), real
+    integrals with the eight-fold symmetry, from a fixed linear-congruential sequence"""
+    state = [seed]
+
+    def rnd():
+        state[0] = (state[0] * 1103515245 + 12345) % (2 ** 31)
+        return ((state[0] >> 8) % 2001 - 1000) / 1000.0
+    h = [[0.] * n_mos for _ in range(n_mos)]
+    for p_ in range(n_mos):
+        for q_ in range(p_, n_mos):
+            h[p_][q_] = h[q_][p_] = rnd()
+    g = {}
+    for p_, q_, r_, s_ in itertools.product(range(n_mos), repeat=4):      # chemist (pq|rs) with 8-fold symmetry
+        key = min([(p_, q_, r_, s_), (q_, p_, r_, s_), (p_, q_, s_, r_), (q_, p_, s_, r_), (r_, s_, p_, q_), (s_, r_, p_, q_), (r_, s_, q_, p_), (s_, r_, q_, p_)])
+        if key not in g:
+            g[key] = rnd()
+        g[(p_, q_, r_, s_)] = g[key]
+    terms = {(): rnd()}
+    for p_, q_ in itertools.product(range(n_mos), repeat=2):
+        for sg in (0, 1):
+            terms[((2 * p_ + sg, 1), (2 * q_ + sg, 0))] = h[p_][q_]
+    # openfermion convention: two_body[p, q, r, s] a+_p a+_q a_r a_s with two_body[p,q,r,s] = (ps|qr) in chemist notation
+    for p_, q_, r_, s_ in itertools.product(range(n_mos), repeat=4):
+        for sg, tu in itertools.product((0, 1), repeat=2):
+            key = ((2 * p_ + sg, 1), (2 * q_ + tu, 1), (2 * r_ + tu, 0), (2 * s_ + sg, 0))
+            terms[key] = terms.get(key, 0.) + 0.5 * g[(p_, s_, q_, r_)]
+    return terms
+
+
+def check_hcb_chain(idx: Index, rep: Report, tier: str):
+    """hard-core-boson encoding as the library performs it (coefficient extraction, spatial reduction, boson operator), folded on spin-restricted molecular
+    Hamiltonians: the boson operator's matrix equals the exact matrix of the Hamiltonian between the paired determinants."""
+    import numpy as np
+    from ..consteval import Raised, Undecidable
+    rule = "K9.hcb-chain"
+    f = idx.function(f"{HCB}::hard_core_boson_operator")
+    n = 0
+    for n_mos, seed in ((2, 11), (2, 12), (3, 13)) + (((3, 14), (4, 15)) if tier == "thorough" else ()):
+        terms = _restricted_hamiltonian(n_mos, seed)
+        try:
+            bos = hcb_encode(idx, terms)
+        except Undecidable as e:
+            raise AnalysisError(f"hard-core-boson chain not foldable: {e}")
+        except Raised as e:
+            rep.violation(rule, f, f.node, text=f"{n_mos} orbitals, restricted Hamiltonian #{seed}", what="the encoding is defined for every spin-restricted Hamiltonian", reason=f"raises {e.exc_type}")
+            continue
+        d = float(np.max(np.abs(boson_matrix(bos, n_mos) - paired_block(terms, n_mos))))
+        n += 1
+        rep.decide(d < 1e-9, rule, f, f.node, text=f"{n_mos} orbitals, spin-restricted Hamiltonian #{seed} ({len(terms)} terms): boson operator vs the paired block",
+                   what="the hard-core-boson operator is the fermionic Hamiltonian restricted to the determinants with every orbital empty or doubly occupied",
+                   reason=f"largest deviation of a matrix element {d:.3g}")
+    rep.floor("hard-core-boson chains folded", n, 3)
